@@ -77,6 +77,11 @@ fn events_of(spec: &GraphSpec, s: &Arc<dyn Sampler>, op: &Op) -> u64 {
         },
         _ => 1,
     };
+    if let Op::Burst { n, .. } = op.strip().1 {
+        // not executed just to count: a rough figure is enough for placing
+        // preemption points
+        return 2 * *n * 40 * spec.edges.len() as u64;
+    }
     exec_op(&envs, &mut cs, op.strip().1, false, u64::MAX).events * reps
 }
 
@@ -174,15 +179,32 @@ fn gen_mixed_op(rng: &mut SplitMix, t: &Target, probe: &Op, c18: bool) -> Op {
     } else {
         match r {
             0..=24 => probe.clone(),
-            25..=49 => gen_sample_x(rng, &t.spec, t.dim),
+            25..=45 => gen_sample_x(rng, &t.spec, t.dim),
+            46..=49 => Op::Burst {
+                seed: rng.next(),
+                n: rng.range(20, 200),
+                ed: workload::gen_edge_data(rng, &t.spec),
+                st: workload::gen_settings(rng),
+            },
             50..=64 => gen_rng_op(rng, t),
             65..=69 => Op::Getters,
             70..=77 => {
-                let (point, ed, st) = match gen_sample_x(rng, &t.spec, t.dim) {
+                let (point, ed, mut st) = match gen_sample_x(rng, &t.spec, t.dim) {
                     Op::SampleX { point, ed, st } => (point, ed, st),
                     _ => unreachable!(),
                 };
-                Op::Aborted { point, ed, st, at: rng.below(400) }
+                if rng.chance(1, 3) {
+                    // unwind out of debug printing / logger / arithmetic, whichever comes
+                    // first: needs debug output on to reach the printing callbacks
+                    st.debug = true;
+                    if rng.chance(1, 2) {
+                        st.stab = Some(1e-6f64.to_bits());
+                    }
+                    // debug callbacks are few: aim at them by counting only those
+                    Op::AbortedAny { point, ed, st, at: rng.below(400), only_debug: rng.chance(2, 3) }
+                } else {
+                    Op::Aborted { point, ed, st, at: rng.below(400) }
+                }
             }
             78..=79 => Op::CloneLocal,
             80..=81 => match gen_rng_op(rng, t) {
@@ -211,10 +233,21 @@ pub fn gen_scenario(seed: u64, cfg: &GenCfg) -> Scenario {
         (true, false) => (8, 4),
         (true, true) => (10, 5),
     };
-    let (spec, s) = pick_graph(&mut rng, max_e, max_l);
+    // one scenario in 300: a long burst of distinct points on a graph with a LARGE
+    // table (13-14 edges): per-sampler bounded caches and their eviction
+    let big_burst = rng.chance(1, 300);
+    let (spec, s) = if big_burst {
+        let g = workload::big_accepted_graph(&mut rng, if cfg.thorough { 14 } else { 13 });
+        match sampler::build(&g) {
+            Built::Ok(s) => (g, Arc::from(s) as Arc<dyn Sampler>),
+            _ => pick_graph(&mut rng, max_e, max_l),
+        }
+    } else {
+        pick_graph(&mut rng, max_e, max_l)
+    };
     let main = target(spec, s);
     let c18 = cfg.flavor == Flavor::C18;
-    let alt: Option<Target> = if rng.chance(1, if c18 { 3 } else { 4 }) { make_alt(&mut rng, &main.spec, max_e, max_l) } else { None };
+    let alt: Option<Target> = if !big_burst && rng.chance(1, if c18 { 3 } else { 4 }) { make_alt(&mut rng, &main.spec, max_e, max_l) } else { None };
 
     let kind = rng.below(100);
     let mut clients: Vec<Vec<Op>> = Vec::new();
@@ -232,7 +265,15 @@ pub fn gen_scenario(seed: u64, cfg: &GenCfg) -> Scenario {
         }
     };
 
-    if kind < 60 || c18 && kind < 85 {
+    if big_burst {
+        let n = if cfg.thorough { 4000 } else { 1500 };
+        clients.push(vec![Op::Burst {
+            seed: rng.next(),
+            n,
+            ed: workload::gen_edge_data(&mut rng, &main.spec),
+            st: Settings::plain(),
+        }]);
+    } else if kind < 60 || c18 && kind < 85 {
         // A: mixed threaded
         let nc = rng.range(if c18 { 1 } else { 2 }, 4) as usize;
         for _ in 0..nc {
